@@ -64,8 +64,8 @@ func (p *Parser) parseMacro(parser *Parser) (Node, error) {
 						params = append(params, paramName)
 
 						// Handle quoted strings in default values
-						if (strings.HasPrefix(defaultValue, "'") && strings.HasSuffix(defaultValue, "'")) ||
-							(strings.HasPrefix(defaultValue, "\"") && strings.HasSuffix(defaultValue, "\"")) {
+						if len(defaultValue) >= 2 && ((strings.HasPrefix(defaultValue, "'") && strings.HasSuffix(defaultValue, "'")) ||
+							(strings.HasPrefix(defaultValue, "\"") && strings.HasSuffix(defaultValue, "\""))) {
 							// Remove quotes
 							strValue := defaultValue[1 : len(defaultValue)-1]
 							defaults[paramName] = NewLiteralNode(strValue, macroLine)
